@@ -405,10 +405,14 @@ def _dispatch(path, kind, sbx, viol, probe, log, dbstate):
                 pass
             probe("archive_member_dispatch_checked")
             got = spy.calls[-1] if spy.calls else None
-            hidden = base.startswith(".") or base.lower().endswith((".zip", ".tar", ".tar.gz", ".tgz", ".tar.bz2", ".tbz2", ".tar.xz", ".txz", ".7z"))
+            # hidden members and members that are themselves archives (whatever extension routes to the archive reader) are skipped
+            nested_by_ext = base.lower().endswith((".zip", ".tar", ".tar.gz", ".tgz", ".tar.bz2", ".tbz2", ".tar.xz", ".txz", ".7z", ".gz", ".bz2", ".xz"))
+            hidden = base.startswith(".") or nested_by_ext
             log.ev("dispatch", kind, base, dbstate, want, got)
             exp = None if hidden else want
-            if (exp or None) != (got or None):
+            if want == "archive_extractor.read_archive" and not nested_by_ext and got in (None, want):
+                pass  # routed to the archive reader through the MIME fallback only: skipping it or unpacking it are both consistent with get_extractor
+            elif (exp or None) != (got or None):
                 viol.append({"class": "archive_member_dispatch_differs", "sig": f"{exp}->{got}",
                              "detail": f"member {base!r} of a ZIP reached {got}; get_extractor names {want} (hidden/nested={hidden}, db={dbstate})"})
         else:
